@@ -191,13 +191,35 @@ def members(tier):
             out.append({"kind": "unterminated", "secs": secs})
     for seq in sequences(2):
         out.append({"kind": "gas", "secs": [list(seq)]})
+    # Dense blocks: many short distinct strings, so that far more than a dozen strings START within
+    # one 256-byte block of the input (the offset map keeps a bounded number of starts per block
+    # and spills the rest), each with references to its start, its middle and its NUL.
+    for count, width in ((40, 3), (100, 3), (30, 1), (64, 2)) + \
+            (((300, 2), (200, 5)) if tier == "thorough" else ()):
+        out.append({"kind": "dense", "secs": [], "count": count, "width": width})
     for seq in sequences(2):
         for secs in splits(seq):
             out.append({"kind": "aarch64", "secs": secs})
     return out
 
 
+def dense_strings(count, width):
+    """`count` pairwise distinct strings of `width` printable characters (base 36, no NUL)."""
+    digits = "0123456789abcdefghijklmnopqrstuvwxyz"
+    out = []
+    for i in range(count):
+        t, x = "", i
+        for _ in range(width):
+            t = digits[x % 36] + t
+            x //= 36
+        out.append(t)
+    assert len(set(out)) == count
+    return out
+
+
 def label(m):
+    if m["kind"] == "dense":
+        return f"dense {m['count']}x{m['width']}"
     s = "|".join("+".join(POOL_NAMES[i] for i in sec) for sec in m["secs"])
     if m["kind"] == "extra":
         s += f" extra={m['extra']}@{m['pos']}"
@@ -213,6 +235,11 @@ def build(m, d):
     objs, tables = [], []
     nsec = len(m["secs"])
     arch = "aarch64" if m["kind"] == "aarch64" else "x86_64"
+    if m["kind"] == "dense":
+        string_object(0, None, strings=dense_strings(m["count"], m["width"]),
+                      arch=arch).write(os.path.join(d, "s0.o"))
+        tables.append(("s0.o", "refs_s0"))
+        objs.append("s0.o")
     for k, idxs in enumerate(m["secs"]):
         name = f"s{k}.o"
         if m["kind"] == "gas":
